@@ -38,6 +38,18 @@ pub struct C09Case {
     pub plan: Plan,
     pub sched: Option<u64>,
     pub seed: u32,
+    /// how long (ms) A and B keep the exchange after their last script step before dropping
+    /// it: a duplicate may arrive while the exchange is still open, closing, or long gone
+    #[serde(default = "default_linger")]
+    pub linger_ms: (u32, u32),
+}
+
+fn default_linger() -> (u32, u32) {
+    (12_000, 12_000)
+}
+
+fn linger() -> impl Strategy<Value = u32> {
+    prop_oneof![2 => Just(12_000u32), 2 => Just(0u32), 1 => 1u32..3000]
 }
 
 pub fn case_strategy() -> impl Strategy<Value = C09Case> {
@@ -58,8 +70,9 @@ pub fn case_strategy() -> impl Strategy<Value = C09Case> {
         adv::plan(14),
         prop_oneof![1 => Just(None), 3 => any::<u64>().prop_map(Some)],
         any::<u32>(),
+        (linger(), linger()),
     )
-        .prop_map(|(kind, script, plan, sched, seed)| {
+        .prop_map(|(kind, script, plan, sched, seed, linger_ms)| {
             let mut script: Vec<Msg> = script
                 .into_iter()
                 .map(|(from_a, len, recv_delay_ms)| Msg {
@@ -75,6 +88,7 @@ pub fn case_strategy() -> impl Strategy<Value = C09Case> {
                 plan,
                 sched,
                 seed,
+                linger_ms,
             }
         })
 }
@@ -113,7 +127,13 @@ fn payload(step: usize, len: u16) -> Vec<u8> {
     v
 }
 
-async fn app(mut ex: Exchange<'_>, me_is_a: bool, script: &[Msg], log: &RefCell<AppLog>) {
+async fn app(
+    mut ex: Exchange<'_>,
+    me_is_a: bool,
+    script: &[Msg],
+    log: &RefCell<AppLog>,
+    linger_ms: u32,
+) {
     for (i, m) in script.iter().enumerate() {
         if m.from_a == me_is_a {
             log.borrow_mut().sends.push(SendRec {
@@ -158,9 +178,11 @@ async fn app(mut ex: Exchange<'_>, me_is_a: bool, script: &[Msg], log: &RefCell<
         }
     }
     log.borrow_mut().finished = true;
-    // Keep the exchange alive for a while so that pending acknowledgements are flushed by the
-    // normal path, then drop it.
-    Timer::after(Duration::from_secs(12)).await;
+    // Keep the exchange for the generated time (pending acknowledgements are flushed by the
+    // stack either way), then drop it.
+    if linger_ms > 0 {
+        Timer::after(Duration::from_millis(linger_ms as u64)).await;
+    }
     drop(ex);
 }
 
@@ -230,7 +252,7 @@ pub fn simulate(case: &C09Case) -> Result<SimOut, Case> {
         });
         ex.spawn("a.app", async {
             match Exchange::initiate_for_session(&a, &ca, planted.a_internal) {
-                Ok(exch) => app(exch, true, &script, &log_a).await,
+                Ok(exch) => app(exch, true, &script, &log_a, case.linger_ms.0).await,
                 Err(e) => log_a
                     .borrow_mut()
                     .errors
@@ -239,7 +261,7 @@ pub fn simulate(case: &C09Case) -> Result<SimOut, Case> {
         });
         ex.spawn("b.app", async {
             match Exchange::accept(&b).await {
-                Ok(exch) => app(exch, false, &script, &log_b).await,
+                Ok(exch) => app(exch, false, &script, &log_b, case.linger_ms.1).await,
                 Err(e) => log_b
                     .borrow_mut()
                     .errors
@@ -513,6 +535,15 @@ fn check(case: &C09Case) -> Case {
             }
             if !d.w.reliable {
                 continue;
+            }
+            // Unsecured sessions: a counter that fell behind the reception window is, by the
+            // specification's rule for unencrypted messages, indistinguishable from a new
+            // message of a restarted peer - the stack cannot know it is a duplicate.
+            if case.kind == SessKind::Plain {
+                let newest = seen_ctr.iter().copied().max().unwrap_or(d.w.ctr);
+                if newest.saturating_sub(d.w.ctr) > 16 {
+                    continue;
+                }
             }
             dup_events += 1;
             // too close to the end of the simulation to judge
